@@ -237,6 +237,35 @@ pub fn run(ctx: &Ctx) -> Value {
         for (s, n) in [(0u64, 0u32), (u64::MAX, 999_999_999), (i64::MAX as u64 / 1000, 807_000_000), (i64::MAX as u64 / 1000, 807_000_001), (1 << 63, 0)] {
             call!("TimeDelta.from_std", json!({"s": big(s as i128), "n": big(n as i128)}), rr(TimeDelta::from_std(std::time::Duration::new(s, n)), vdur));
         }
+        // ---- text: structured LONG inputs (a run of one character class after a valid prefix): fixed-size buffers, counters narrower than
+        //      usize and recursion depth are only ever exceeded by these
+        if round == 0 {
+            for len in [1usize, 2, 3, 4, 5, 8, 9, 10, 12, 40, 300] { for ch in ["G", "z", "é"] {
+                let s = format!("Tue, 20 Jan 2015 17:35:20 {}", ch.repeat(len));
+                call!("DateTime.parse_from_rfc2822", json!({"s": cps(&s)}), rr(DateTime::parse_from_rfc2822(&s), vdtz));
+            } }
+            for d in [1usize, 2, 10, 500] {
+                let s = format!("Tue, 20 Jan 2015 17:35:20 +0000 {}x{}", "(".repeat(d), ")".repeat(d));
+                call!("DateTime.parse_from_rfc2822", json!({"s": cps(&s)}), rr(DateTime::parse_from_rfc2822(&s), vdtz));
+            }
+            for n in [9usize, 10, 100, 255, 256, 257, 1000] {
+                let s = format!("2015-01-20T17:35:20.{}+00:00", "7".repeat(n));
+                call!("DateTime.parse_from_rfc3339", json!({"s": cps(&s)}), rr(DateTime::parse_from_rfc3339(&s), vdtz));
+                call!("DateTimeFixed.from_str", json!({"s": cps(&s)}), rr(DateTime::<FixedOffset>::from_str(&s), vdtz));
+                let t = format!("17:35:20.{}", "7".repeat(n));
+                call!("NaiveTime.from_str", json!({"s": cps(&t)}), rr(NaiveTime::from_str(&t), vtime));
+            }
+            // the same at sizes that can exhaust the stack or wrap a 16-bit counter: in a child process, whose death is the outcome "panic"
+            for (probe, n) in [("rfc2822-nested-comment", 200_000usize), ("rfc2822-open-comment", 200_000), ("rfc3339-long-fraction", 65_545), ("rfc3339-long-fraction", 200_000), ("strftime-many-items", 100_000)] {
+                tw.emit(ev("DateTime.parse_from_rfc2822", json!({"probe": probe, "n": n, "s": cps("(generated in the child process)")}), || {
+                    let out = std::process::Command::new(std::env::current_exe().expect("own path")).args(["probe", probe, &n.to_string()]).output().expect("child process");
+                    let text = String::from_utf8_lossy(&out.stdout).to_string();
+                    if !out.status.success() || !text.contains("PROBE") { panic!("the call ended the process ({:?}): stack exhausted or aborted", out.status); }
+                    // (the value is not judged here; only that the call returned)
+                    json!({"out": "err"})
+                }));
+            }
+        }
         // ---- text: parsers on seeds, mutations and arbitrary Unicode ------------------------------
         let n_text = ctx.t(2_500, 20_000);
         for i in 0..n_text {
